@@ -131,38 +131,6 @@ package names
 
 //@ func (Name).String
 //@   ensures result == namestr(n.h, n.n, n.m, n.t)
-// ---- C13 extension: the print/parse round trip of THIS package and the cross-parser agreement, for ALL
-// accepted names (replaces the bounded stand-in). For a fully qualified name the printed string
-// S = H "/" N "/" M ":" T satisfies the premises of Parse's post.6 (length within MaxNameLength, last
-// separator ':', the last separator of the rest '/') and the four functions of S that post.6 says
-// Parse returns are H, N, M, T: names.Parse(n.String()) == n. Both printers are proved to compute
-// the same spec function namestr (post.1 here, post.1 of types/model.(Name).String), and
-// types/model.(Name).String#post.2 proves that ParseNameBare reads namestr(H,N,M,T) back as H,N,M,T:
-// so each parser reads the other's print of an accepted name with the same parts.
-// String theory (byte-level meaning of +, s[a:b], ==, LastIndexAny for the two separator sets used)
-// is assumed in this function only; listed in props/C13.json `assumptions`.
-//@   assume-at return : (forall a string, b string :: len(a + b) == len(a) + len(b)) && (forall a string, b string, j int :: 0 <= j && j < len(a) + len(b) ==> (a + b)[j] == ite(j < len(a), a[j], b[j - len(a)]))
-//@   assume-at return : (forall s string, lo int, hi int :: 0 <= lo && lo <= hi && hi <= len(s) ==> len(s[lo:hi]) == hi - lo) && (forall s string, lo int, hi int, j int :: 0 <= lo && lo <= hi && hi <= len(s) && 0 <= j && j < hi - lo ==> s[lo:hi][j] == s[lo + j])
-//@   assume-at return : forall x string, y string :: seqx(x, y) ==> x == y
-//@   assume-at return : (forall s string :: -1 <= slastindexany(s, "/:") && slastindexany(s, "/:") < len(s) && (slastindexany(s, "/:") >= 0 ==> s[slastindexany(s, "/:")] == 47 || s[slastindexany(s, "/:")] == 58) && (forall j int :: slastindexany(s, "/:") < j && j < len(s) ==> s[j] != 47 && s[j] != 58)) && (forall s string :: -1 <= slastindexany(s, "/") && slastindexany(s, "/") < len(s) && (slastindexany(s, "/") >= 0 ==> s[slastindexany(s, "/")] == 47) && (forall j int :: slastindexany(s, "/") < j && j < len(s) ==> s[j] != 47))
-//@   assert-at return : fqname(n.h, n.n, n.m, n.t) ==> result == rtY(n.h, n.n, n.m) + sbyte(58) + n.t && len(result) == (len(n.h) + len(n.n) + len(n.m) + 2) + 1 + len(n.t) && len(rtY(n.h, n.n, n.m)) == (len(n.h) + len(n.n) + len(n.m) + 2) && len(rtZ(n.h, n.n)) == (len(n.h) + len(n.n) + 1) && len(result) <= 593
-//@   assert-at return : fqname(n.h, n.n, n.m, n.t) ==> n.h != "" && n.n != "" && n.m != "" && n.t != "" && rtY(n.h, n.n, n.m) != "" && rtZ(n.h, n.n) != ""
-//@   assert-at return : fqname(n.h, n.n, n.m, n.t) ==> (forall j int :: 0 <= j && j < len(n.t) ==> n.t[j] != 47 && n.t[j] != 58) && (forall j int :: 0 <= j && j < len(n.m) ==> n.m[j] != 47 && n.m[j] != 58) && (forall j int :: 0 <= j && j < len(n.n) ==> n.n[j] != 47 && n.n[j] != 58) && (forall j int :: 0 <= j && j < len(n.h) ==> n.h[j] != 47)
-//@   assert-at return : fqname(n.h, n.n, n.m, n.t) ==> rtZ(n.h, n.n)[len(n.h)] == 47 && (forall k int :: len(n.h) < k && k < (len(n.h) + len(n.n) + 1) ==> rtZ(n.h, n.n)[k] != 47) && (forall k int :: 0 <= k && k < len(n.h) ==> rtZ(n.h, n.n)[k] == n.h[k])
-//@   assert-at return : fqname(n.h, n.n, n.m, n.t) ==> rtY(n.h, n.n, n.m)[(len(n.h) + len(n.n) + 1)] == 47 && (forall k int :: (len(n.h) + len(n.n) + 1) < k && k < (len(n.h) + len(n.n) + len(n.m) + 2) ==> rtY(n.h, n.n, n.m)[k] != 47 && rtY(n.h, n.n, n.m)[k] != 58) && (forall k int :: 0 <= k && k < (len(n.h) + len(n.n) + 1) ==> rtY(n.h, n.n, n.m)[k] == rtZ(n.h, n.n)[k])
-//@   assert-at return : fqname(n.h, n.n, n.m, n.t) ==> result[(len(n.h) + len(n.n) + len(n.m) + 2)] == 58 && (forall k int :: (len(n.h) + len(n.n) + len(n.m) + 2) < k && k < len(result) ==> result[k] != 47 && result[k] != 58) && (forall k int :: 0 <= k && k < (len(n.h) + len(n.n) + len(n.m) + 2) ==> result[k] == rtY(n.h, n.n, n.m)[k])
-//@   assert-at return : fqname(n.h, n.n, n.m, n.t) ==> nmk(result) == (len(n.h) + len(n.n) + len(n.m) + 2)
-//@   assert-at return : fqname(n.h, n.n, n.m, n.t) ==> seqx(result[nmk(result)+1:len(result)], n.t) && seqx(result[0:nmk(result)], rtY(n.h, n.n, n.m))
-//@   assert-at return : fqname(n.h, n.n, n.m, n.t) ==> nmtl(result) == n.t && nmhd(result) == rtY(n.h, n.n, n.m)
-//@   assert-at return : fqname(n.h, n.n, n.m, n.t) ==> nmk(rtY(n.h, n.n, n.m)) == (len(n.h) + len(n.n) + 1)
-//@   assert-at return : fqname(n.h, n.n, n.m, n.t) ==> seqx(rtY(n.h, n.n, n.m)[nmk(rtY(n.h, n.n, n.m))+1:len(rtY(n.h, n.n, n.m))], n.m) && seqx(rtY(n.h, n.n, n.m)[0:nmk(rtY(n.h, n.n, n.m))], rtZ(n.h, n.n))
-//@   assert-at return : fqname(n.h, n.n, n.m, n.t) ==> nmtl(rtY(n.h, n.n, n.m)) == n.m && nmhd(rtY(n.h, n.n, n.m)) == rtZ(n.h, n.n)
-//@   assert-at return : fqname(n.h, n.n, n.m, n.t) ==> nmsl(rtZ(n.h, n.n)) == len(n.h)
-//@   assert-at return : fqname(n.h, n.n, n.m, n.t) ==> seqx(rtZ(n.h, n.n)[nmsl(rtZ(n.h, n.n))+1:len(rtZ(n.h, n.n))], n.n) && seqx(rtZ(n.h, n.n)[0:nmsl(rtZ(n.h, n.n))], n.h)
-//@   assert-at return : fqname(n.h, n.n, n.m, n.t) ==> nmns(rtZ(n.h, n.n)) == n.n && nmhost(rtZ(n.h, n.n)) == n.h
-//@   assert-at return : fqname(n.h, n.n, n.m, n.t) ==> nmk(nmhd(result)) == (len(n.h) + len(n.n) + 1) && nmhd(result)[nmk(nmhd(result))] == 47 && nmtl(nmhd(result)) == n.m && nmhd(nmhd(result)) == rtZ(n.h, n.n)
-//@   assert-at return : fqname(n.h, n.n, n.m, n.t) ==> len(result) <= 593 && nmk(result) >= 0 && result[nmk(result)] == 58 && nmk(nmhd(result)) >= 0 && nmhd(result)[nmk(nmhd(result))] == 47
-//@   assert-at return : fqname(n.h, n.n, n.m, n.t) ==> nmtl(nmhd(result)) == n.m && nmtl(result) == n.t && nmhost(nmhd(nmhd(result))) == n.h && nmns(nmhd(nmhd(result))) == n.n
 
 // -- C13 strengthening (audit): extended-name splitting. The scheme is what precedes the FIRST "://",
 // the digest what follows the LAST '@' of the remainder, the name what lies between; nothing is
